@@ -117,10 +117,27 @@ theorem init_wf (lmin lmax : Nat) (a b : List Rat) (hlen : a.length = b.length) 
 theorem step_wf (a b : List Rat) (lmax0 : Int) (st : DW) (h : DWWF a b lmax0 st)
     (bens : List (List Rat)) (margin : Rat) (rebalancing : Bool) (dec : Nat → Nat → Nat → Bool) :
     ∃ out, st.step bens margin rebalancing dec = some out ∧ DWWF a b lmax0 out.st ∧ out.st.dim = st.dim ∧
-      out.st.lmin = st.lmin ∧ out.refined.Pairwise posLt ∧
+      out.st.lmin = st.lmin ∧ out.raiseDone = true ∧ out.refined.Pairwise posLt ∧
       (∀ d i, (d, i) ∈ out.refined ↔ ∃ c : Cont, st.m.conts[d]? = some c ∧ i < c.objs.length ∧
           Pb (bens.getD d []) (maxBenefit bens * margin) i = true) :=
   SparseSpace.step_wf a b lmax0 st h bens margin rebalancing dec
+
+/-- **raise_lmax_terminates**: in every well-formed state — hence, by `reachable_wf`, in every state of every
+history — the `while True` loop of `raise_lmax` ends by `refinements == 0` within the fuel the model gives it (the flag
+`raiseDone`, printed by the driver as `F 1`, is always true): every pass that does not end the loop moves an index of
+the box `[lmin, max lmax)^dim` from the active to the duplicate-free, never shrinking old set (C01's invariant) -/
+theorem raise_lmax_terminates (a b : List Rat) (lmax0 : Int) (st : DW) (h : DWWF a b lmax0 st)
+    (bens : List (List Rat)) (margin : Rat) (rebalancing : Bool) (dec : Nat → Nat → Nat → Bool) :
+    ∃ out, st.step bens margin rebalancing dec = some out ∧ out.raiseDone = true := by
+  obtain ⟨out, h1, _, _, _, h5, _⟩ := step_wf a b lmax0 st h bens margin rebalancing dec
+  exact ⟨out, h1, h5⟩
+
+/-- the loop itself, for any scheme satisfying C01's invariant and any `lmax` -/
+theorem raiseLoop_terminates (lmax : List Int) (lmin : Int) (s : CS) (hs : SchemeInv s) (hlm : s.lmin = lmin) :
+    (raiseLoop lmax lmin (raiseFuel lmax lmin s.dim) s).2 = true :=
+  raiseFuel_enough lmax lmin s hs hlm
+
+example : (raiseLoop [4, 2] 1 (raiseFuel [4, 2] 1 2) (CS.init 2 2 1)).2 = true := by decide
 
 /-- **every refinement history**: no `refine()` call of any history fails, every reached state is well formed -/
 theorem reachable_wf (a b : List Rat) (lmax0 : Int) : ∀ (ins : List StepIn) (st : DW), DWWF a b lmax0 st →
